@@ -11,7 +11,7 @@
 //!      stack between the shallowest and deepest frame
 //!      toodeep: some error says "nesting is too deep";  nchunks: top-level chunks of the tree (-1: no tree)
 //!      toks: the token stream the parser was given, as (code glued) pairs, code per `code()` below (-1: other kind),
-//!      glued = 1 when the token starts in the column where the previous token ended (whatever the lines)
+//!      glued = 1 when the token starts where the previous token ended (same line, same column)
 //!   (3 site msg)   the lexer panicked (site = file:line)        (4 site msg)   the parser / desugarer panicked
 //! a stack overflow kills the process.
 #[allow(dead_code)]
@@ -88,17 +88,17 @@ fn parse(text: String) -> Sx {
 
 fn parse_tokens(ts: erg_parser::token::TokenStream) -> Sx {
     let mut toks = vec![];
-    let mut prev: Option<u32> = None;
+    let mut prev: Option<(u32, u32)> = None;
     for t in ts.iter() {
         let c = if t.kind == TokenKind::Symbol && (&t.content[..] == "do" || &t.content[..] == "do!" || &t.content[..] == "self") {
             -1
         } else {
             code(t.kind)
         };
-        // the parser compares columns only (`obj.col_end() == t.col_begin()`), also across lines inside brackets
-        let glued = prev == Some(t.col_begin);
+        // Parser::adjacent: `obj.ln_end() == t.ln_begin() && obj.col_end() == t.col_begin()`
+        let glued = prev == Some((t.lineno, t.col_begin));
         toks.push(Sx::L(vec![Sx::Z(c), Sx::b(glued)]));
-        prev = Some(t.col_end);
+        prev = Some((t.lineno, t.col_end));
     }
     erg_parser::parse::verif::reset();
     let res = Parser::new(ts).parse();
